@@ -329,7 +329,7 @@ inductive Mod where
   | neutralize (name : String)
   | annualize (name : String)
   | params (us : List PUpd)
-deriving Repr
+deriving DecidableEq, Repr
 
 /-- `TaxBenefitSystem.get_variable(name)` (`check_existence=False`): the identity found -/
 def resolve (h : Heap) (sid : Oid) (name : String) : Option Oid :=
@@ -491,17 +491,112 @@ def reformSys (h : Heap) (src : Oid) (mods : List Mod) : Heap × Except String O
     | (h2, .ok ()) => (h2, .ok sid)
     | (h2, .error e) => (h2, .error e)
 
+/-! ## Extensions and the YAML test runner's derivation -/
+
+/-- an extension package: variable classes (`add_variables_from_directory`) and a `parameters/`
+    directory whose top-level children are merged into the target's tree -/
+structure Ext where
+  name   : String
+  vars   : List ClassDef
+  params : ParamTree
+deriving Repr
+
+/-- `add_variables_from_directory`: `add_variable` for each class in turn; the first conflict raises
+    (the classes already added stay) -/
+def addVariables (h : Heap) (sid : Oid) : List ClassDef → Heap × Except String Unit
+  | [] => (h, .ok ())
+  | c :: r =>
+    match loadVariable h sid c false with
+    | (h1, .ok ()) => addVariables h1 sid r
+    | (h1, .error e) => (h1, .error e)
+
+/-- `ParameterNode.merge`: `add_child` for each child of the extension's tree; an existing name
+    raises (the children already merged stay) -/
+def mergeParams : ParamTree → ParamTree → ParamTree × Except String Unit
+  | p, [] => (p, .ok ())
+  | p, (k, l) :: r =>
+    match dictGet k p with
+    | some _ => (p, .error "ValueError: has already a child named …")
+    | none => mergeParams (p ++ [(k, l)]) r
+
+/-- `TaxBenefitSystem.load_extension`: the variables, then the parameters merged IN PLACE into
+    whatever tree object the system holds (an extension without a `parameters` directory merges
+    nothing) -/
+def loadExtension (h : Heap) (sid : Oid) (e : Ext) : Heap × Except String Unit :=
+  match addVariables h sid e.vars with
+  | (h1, .error er) => (h1, .error er)
+  | (h1, .ok ()) =>
+    match e.params with
+    | [] => (h1, .ok ())
+    | q :: qs =>
+      match h1.getSys sid with
+      | none => (h1, .error "not a system")
+      | some s =>
+        match h1.getPar s.params with
+        | none => (h1, .error "ill-formed system")
+        | some p =>
+          match mergeParams p (q :: qs) with
+          | (p', r) => (h1.put s.params (.par p'), r)
+
+def loadExtensions (h : Heap) (sid : Oid) : List Ext → Heap × Except String Unit
+  | [] => (h, .ok ())
+  | e :: r =>
+    match loadExtension h sid e with
+    | (h1, .ok ()) => loadExtensions h1 sid r
+    | (h1, .error er) => (h1, .error er)
+
+/-- `current = current.apply_reform(path)` for each reform in order -/
+def applyReforms (h : Heap) (cur : Oid) : List (List Mod) → Heap × Except String Oid
+  | [] => (h, .ok cur)
+  | mods :: r =>
+    match reformSys h cur mods with
+    | (h1, .ok R) => applyReforms h1 R r
+    | (h1, .error e) => (h1, .error e)
+
+/-- `test_runner._get_tax_benefit_system(baseline, reforms, extensions)` on a cache miss: a
+    `clone()` of the baseline, the reforms stacked on it, the extensions loaded into the last one.
+    The intermediate systems are private to the derivation. -/
+def testRunnerDerive (h : Heap) (src : Oid) (reforms : List (List Mod)) (exts : List Ext) :
+    Heap × Except String Oid :=
+  match cloneSys h src with
+  | .error e => (h, .error e)
+  | .ok (h1, N) =>
+    match applyReforms h1 N reforms with
+    | (h2, .error e) => (h2, .error e)
+    | (h2, .ok R) =>
+      match loadExtensions h2 R exts with
+      | (h3, .ok ()) => (h3, .ok R)
+      | (h3, .error e) => (h3, .error e)
+
+/-- the cache key: `(id(baseline), ":".join(reforms), frozenset(extensions))` — reform paths in
+    order, extension names as a set (sorted, without repetition) -/
+abbrev TRKey := Nat × List String × List String
+
+def insertName (s : String) : List String → List String
+  | [] => [s]
+  | t :: r => if s < t then s :: t :: r else if s = t then t :: r else t :: insertName s r
+
+def nameSet (l : List String) : List String := l.foldr insertName []
+
+def lookupMemo (k : TRKey) : List (TRKey × Oid) → Option Oid
+  | [] => none
+  | (k', v) :: r => if k' = k then some v else lookupMemo k r
+
 /-! ## Histories -/
 
 inductive Op where
   | clone (src : Nat)                    -- indices into the list of systems, in creation order
   | reform (src : Nat) (mods : List Mod)
   | modify (tgt : Nat) (m : Mod)
+  /-- the YAML test runner deriving the system of a test: reforms by (path, what `apply()` does),
+      extensions -/
+  | testRunner (src : Nat) (reforms : List (String × List Mod)) (exts : List Ext)
 deriving Repr
 
 structure State where
   heap    : Heap
   systems : List Oid
+  memo    : List (TRKey × Oid) := []      -- `_tax_benefit_system_cache`
 deriving Repr
 
 /-- one step; the flag says whether the call returned normally -/
@@ -511,22 +606,33 @@ def step (st : State) : Op → State × Bool
     | none => (st, false)
     | some sid =>
       match cloneSys st.heap sid with
-      | .ok (h, n) => (⟨h, st.systems ++ [n]⟩, true)
+      | .ok (h, n) => ({ st with heap := h, systems := st.systems ++ [n] }, true)
       | .error _ => (st, false)
   | .reform src mods =>
     match st.systems[src]? with
     | none => (st, false)
     | some sid =>
       match reformSys st.heap sid mods with
-      | (h, .ok n) => (⟨h, st.systems ++ [n]⟩, true)
-      | (h, .error _) => (⟨h, st.systems⟩, false)
+      | (h, .ok n) => ({ st with heap := h, systems := st.systems ++ [n] }, true)
+      | (h, .error _) => ({ st with heap := h }, false)
   | .modify tgt m =>
     match st.systems[tgt]? with
     | none => (st, false)
     | some sid =>
       match applyMod st.heap sid m with
-      | (h, .ok ()) => (⟨h, st.systems⟩, true)
-      | (h, .error _) => (⟨h, st.systems⟩, false)
+      | (h, .ok ()) => ({ st with heap := h }, true)
+      | (h, .error _) => ({ st with heap := h }, false)
+  | .testRunner src reforms exts =>
+    match st.systems[src]? with
+    | none => (st, false)
+    | some sid =>
+      let key : TRKey := (sid, reforms.map (fun r => r.1), nameSet (exts.map (fun e => e.name)))
+      match lookupMemo key st.memo with
+      | some _ => (st, true)               -- cache hit: the system derived earlier, nothing new
+      | none =>
+        match testRunnerDerive st.heap sid (reforms.map (fun r => r.2)) exts with
+        | (h, .ok R) => ({ heap := h, systems := st.systems ++ [R], memo := (key, R) :: st.memo }, true)
+        | (h, .error _) => ({ st with heap := h }, false)
 
 def run (st : State) : List Op → State
   | [] => st
@@ -537,6 +643,7 @@ def Op.targetsDerived (k0 : Nat) : Op → Prop
   | .clone _ => True
   | .reform _ _ => True
   | .modify tgt _ => k0 ≤ tgt
+  | .testRunner _ _ _ => True
 
 instance (k0 : Nat) (op : Op) : Decidable (op.targetsDerived k0) := by
   cases op <;> unfold Op.targetsDerived <;> infer_instance
@@ -649,7 +756,7 @@ def baseSystem (keys : List String) (p : ParamTree) (cs : List ClassDef) : Optio
       match loadVariable h sid c false with
       | (h1, .ok ()) => addAll h1 r
       | (_, .error _) => none
-  (addAll h cs).map fun h => ⟨h, [sid]⟩
+  (addAll h cs).map fun h => { heap := h, systems := [sid] }
 
 /-- the identities an observation follows out of an object -/
 def Obj.ptrs : Obj → List Oid
